@@ -20,6 +20,13 @@ DIRECTED = [
     "stel i = 0; zolang i < 1000 { {} i += 1 } i", "functie f(a) { a } stel i = 0; zolang i < 300 { f([i]); i += 1 } i", "stel s = \"abc\"; s[0] = s; s",
     "stel a = [3, 1, 2]; stel i = 0; zolang i < 3 { stel j = 0; zolang j < 2 { als a[j] > a[j + 1] { stel t = a[j]; a[j] = a[j + 1]; a[j + 1] = t } j += 1 } i += 1 } a",
     "1 / 0", "[1][2]", "x", "1 +", "lengte(1, 2)",
+    # range ends of every arithmetic path (a build profile must not decide between a value, a wrap and a trap)
+    "-(0 - 1152921504606846975 - 1)", "functie f(x) { -x } f(0 - 1152921504606846975 - 1)", "(0 - 1152921504606846975 - 1) - 1", "functie f(x) { x - 1 } f(0 - 1152921504606846975 - 1)",
+    "functie f(x) { x + 1 } f(1152921504606846975)", "functie f(x) { 1 + x } f(1152921504606846975)", "functie f(x) { x * 2 } f(1152921504606846975)", "(0 - 1152921504606846975 - 1) % (0 - 1)",
+    "int(1152921504606846976.0)", "int(0 - 1152921504606846977.0)", "1152921504606846975 + 1 - 1",
+    # a name read before its first assignment is null whatever ran before in this process or on this thread
+    "stel a = 1; stel b = b; b", "stel p = 10; stel q = 32; stel r = r; [p, q, r]", "stel f = functie() { g }; stel g = g; g", "stel x = x; stel y = y; stel z = z; [x, y, z]",
+    "stel s = \"tekst\"; stel t = [s, 2.5]; stel u = u; u",
 ]
 
 
